@@ -283,6 +283,9 @@ class FakeSession:
         if method == 'blockchain.block.header':
             return '00' * 80
         if method == 'server.features':
+            if self.remote.mode == 'nomethod':
+                import aiorpcx
+                raise aiorpcx.RPCError(-32601, 'unknown method "server.features"')
             g = self.genesis if self.remote.mode == 'ok' else 'ff' * 32
             return {'hosts': {self.host: {'tcp_port': 50001, 'ssl_port': 50002}},
                     'genesis_hash': g, 'protocol_min': '1.4', 'protocol_max': '1.4.2',
@@ -317,6 +320,8 @@ def history_events(tier):
             evs.append(('verify', n, w))
         evs.append(('verify', n, 'badgen'))
         evs.append(('verify', n, 'down'))
+        if n == names[0]:
+            evs.append(('verify', n, 'nomethod'))
     evs.append(('verify', '23.45.1.1', 'ok'))
     evs.append(('tick',))
     evs.append(('subscribe', False))
@@ -395,7 +400,7 @@ def case_history(case, res):
                 if what == 'down':
                     r.mode = 'down'
                 else:
-                    r.mode = 'bad' if what == 'badgen' else 'ok'
+                    r.mode = 'bad' if what == 'badgen' else 'nomethod' if what == 'nomethod' else 'ok'
                     if what == 'A':
                         r.addr = CROWDED4.format(slot[host])
                     elif what == 'B':
@@ -415,7 +420,10 @@ def case_history(case, res):
                 res.count('verifications')
                 if r.mode != 'down':
                     ref[host]['addr'] = r.addr
-                    ref[host]['failed'] = r.mode != 'ok'
+                    # wrong genesis = a verdict (bad peer); an RPC error is a failed attempt like
+                    # an unreachable host: no verdict, but no fresh verification either
+                    if r.mode != 'nomethod':
+                        ref[host]['failed'] = r.mode != 'ok'
                     if r.mode == 'ok':
                         ref[host]['last_ok'] = clock.now
             else:
